@@ -166,6 +166,27 @@ def rule_shift_prior(rep):
             )
 
 
+        # the aggregate is per state: it starts as a fresh, empty dict for every state that is processed
+        inits = [
+            n for n in walk_no_nested(f.node)
+            if isinstance(n, ast.Assign) and any(isinstance(t, ast.Attribute) and t.attr == "_max_prior_per_symbol" for t in n.targets)
+        ]
+        r.floor("initialisations of _max_prior_per_symbol", len(inits), 1)
+        for n in inits:
+            in_state_loop = any(isinstance(a, (ast.While, ast.For)) for a in _ancestors(n))
+            fresh = (isinstance(n.value, ast.Dict) and not n.value.keys) or (
+                isinstance(n.value, ast.Call) and unparse(n.value.func) in ("dict", "OrderedDict") and not n.value.args)
+            r.check(
+                in_state_loop and fresh,
+                "a fresh aggregate per state",
+                "create_table:max_prior:per-state",
+                f"`{unparse(n)[:70]}`: the shift-side priority table of a state is not a fresh empty dict made for that state "
+                "(a shared table makes the priority behind a shift the maximum over the whole automaton: operators "
+                "that occur with different priorities in different rules are resolved wrongly, without any conflict)",
+                node=n,
+            )
+
+
 def _ancestors(n):
     from ..core import ancestors
     return ancestors(n)
